@@ -7,7 +7,7 @@ Local Open Scope char_scope.
 Inductive sx := SA (a : bytes) | SL (l : list sx).
 
 Definition flush (atom : bytes) (cur : list sx) : list sx :=
-  match atom with [] => cur | _ => SA (rev atom) :: cur end.
+  match atom with [] => cur | _ => SA (rev_append atom []) :: cur end.
 
 Fixpoint parse_go (s : bytes) (atom : bytes) (cur : list sx) (stack : list (list sx))
   : option sx :=
@@ -21,7 +21,7 @@ Fixpoint parse_go (s : bytes) (atom : bytes) (cur : list sx) (stack : list (list
       if Ascii.eqb c "(" then parse_go t [] [] (flush atom cur :: stack)
       else if Ascii.eqb c ")" then
         match stack with
-        | top :: st => parse_go t [] (SL (rev (flush atom cur)) :: top) st
+        | top :: st => parse_go t [] (SL (rev_append (flush atom cur) []) :: top) st
         | [] => None
         end
       else if Ascii.eqb c " " then parse_go t [] (flush atom cur) stack
